@@ -1,0 +1,33 @@
+//go:build verif
+
+// Contracts for package types, read by /verif's VC generator (govc). Comment-only.
+package types
+
+// Data invariant of function values (assumed wherever a value is read, proved wherever
+// one is built): closures made by `fn` carry the evaluator, the scope constructor, a
+// valid defining scope and a body of the form (do ...).
+//@ invariant MalFunc(f) = f.Eval != nil && f.GenEnv != nil && validEnvVal(f.Env) && (f.Exp == nil || (is(f.Exp, List) && len(f.Exp.(List).Val) > 0))
+//@ invariant Func(f) = f.Fn != nil
+//@ invariant `func([]MalType) (MalType, error)`(f) = f != nil
+
+//@ field types.MalFunc.Eval(ctx, ast, env) (res, err)
+//@   requires validEnvVal(env)
+//@   panics never
+
+//@ field types.MalFunc.GenEnv(outer, binds, exprs) (r, err)
+//@   requires validEnvVal(outer)
+//@   panics never
+//@   ensures err != nil || validEnvVal(r)
+
+//@ field types.Func.Fn(ctx, args) (res, err)
+//@   panics never
+
+//@ func GetSlice(seq) (r, err)
+//@   panics never
+//@   pure
+//@   ensures is(seq, List) || is(seq, Vector) || err != nil
+//@   ensures implies(is(seq, List), err == nil && r == seq.(List).Val)
+//@   ensures implies(is(seq, Vector), err == nil && r == seq.(Vector).Val)
+
+//@ func Apply(ctx, f, a) (res, err)
+//@   panics never
